@@ -232,6 +232,18 @@ func c16Triples(c *Ctx, n int) []c16Triple {
 			}
 		}
 	}
+	// arguments of another kind than the descriptor declares (a number where a text is wanted, a list where one value is wanted, a
+	// group where a number is wanted), misspelt group operators, filters on values that are not lists: every message the validator
+	// has for them, each asked twice in a row and after the others
+	{
+		schema := "input: {\n\tname: string\n\tcount: number\n\tok: bool\n\titems: [...{v: string, n: number}]\n\ttags: [...string]\n\t_dependencies: []\n}\n"
+		for _, q := range []string{"$.input.name.Contains($.input.count)", "$.input.name.Contains($.input.tags)", "$.input.count.Add($.input.name)", "$.input.count.Add({$.input.ok})", "$.input.name.Left($.input.ok)",
+			"$.input.count.Less($.input.items)", "$.input.name.AnyOf($.input.count,$.input.ok,$.input.tags)", "$.input.tags.Index($.input.name)", "$.input.name.ReplaceAll($.input.count,1)", "$.input.name.Equal(1)",
+			"{XOR,$.input.ok}", "{NOT,$.input.ok,$.input.ok}", "{and,$.input.ok}", "$.input.items[XOR,@.n.Less(1)]", "$.input.name.Equal({XOR,$.input.ok})", "$.input.name[@.v.IsNull()]", "$.input.count[@.IsNull()]",
+			"$.input[@.name.IsNull()]", "$.input.items.First()[@.v.IsNull()]", "$.input.items.Count()[@.IsNull()]", "$.input.ok.Not().Not($.input.ok)", "$.input.name.Sprintf($.input.items)"} {
+			ts = append(ts, c16Triple{q, schema, "", "function-arguments-of-another-kind", nil}, c16Triple{q, schema, "input", "function-arguments-of-another-kind", nil})
+		}
+	}
 	// step ids that contain a dot next to nested fields of the same spelling: `"job.out"` (one root field) and `job: {out: ..}`
 	for i := 0; i < 3; i++ {
 		schema := fmt.Sprintf("fetch: {r: string, _dependencies: []}\n\"job.out\": {r: string, n%d: int, _dependencies: [\"fetch\"]}\njob: {out: {r: int}, _dependencies: []}\n\"a.b.c\": {v: bool, _dependencies: [\"job.out\"]}\na: {b: {c: {v: string}}, _dependencies: []}\n", i)
@@ -338,6 +350,26 @@ func genC16(c *Ctx) {
 	for _, k := range keep {
 		if again := marshalNoIDs(k.tc); again != k.canon {
 			viol(k.t, "altered", "a result returned earlier marshals differently after later calls", k.canon, again)
+		}
+	}
+	// fields declared as the closed empty list (`tags: []`): there is no element type to look at
+	{
+		schema := "input: {\n\tname: string\n\ttags: []\n\trows: [...{labels: [], v: string}]\n\t_dependencies: []\n}\nstep1: {\n\tresult: {none: [], some: [...string]}\n\t_dependencies: []\n}\n"
+		for _, qc := range [][2]string{{"$.step1.result.some", ""}, {"$.input.rows", "step1"}, {"$.input.tags", ""}, {"$.input.tags.Count()", "step1"}, {"$.step1.result.none", ""}, {"$.input._dependencies", "step1"},
+			{"$.input.rows[@.labels.Any()]", "step1"}, {"{AND,$.input.tags.Any(),$.input.name.Equal(\"x\")}", ""}, {"$.input.tags.First()", ""}, {"$.input.tags.zz", ""}, {"$.input.rows.First().labels", ""}} {
+			t := c16Triple{qc[0], schema, qc[1], "closed-empty-lists", nil}
+			o := cueValidateGuarded(t.Q, t.S, t.CP)
+			line, _ := json.Marshal(map[string]any{"pos": "unmodelled", "q": hx(t.Q), "dom": false})
+			c.Record(line, o.Line, t.cls, true, t.cls, o.Line, map[string]any{"query": t.Q, "current_step": t.CP, "schema": trunc(t.S, 300), "impl": o.Line, "class": t.cls})
+			switch o.Line {
+			case "PANIC", "TIMEOUT", "NEITHER":
+				c.addViolation(Violation{Kind: "panic", Query: t.Q, QueryHex: hx(t.Q), Got: o.Line, Why: "CueValidate did not return a result or an error: " + o.Line + " " + trunc(o.Errs, 160), Cls: t.cls,
+					Key: "c16:total:" + o.Line, Extra: map[string]any{"schema": t.S, "current_step": t.CP}})
+				continue
+			}
+			if o2 := cueValidateGuarded(t.Q, t.S, t.CP); o2.canon() != o.canon() {
+				viol(t, "repeat", "the same call gives a different result the second time", o.canon(), o2.canon())
+			}
 		}
 	}
 	c.Extra["fresh_process_comparisons"] = fresh
